@@ -2,6 +2,7 @@ import Driver.LogCmd
 import Driver.BloomCmd
 import Driver.TableCmd
 import Driver.IterCmd
+import Driver.LsmCmd
 /-
 `raindrv`: one request per line on stdin, one answer per line on stdout.
 Unknown or malformed requests answer `bad-request` (never a default value).
@@ -17,6 +18,7 @@ def dispatch (toks : List String) : String :=
       else if cmd.startsWith "bloom." || cmd.startsWith "filter." then bloomCmd toks
       else if cmd.startsWith "key." || cmd.startsWith "bytes." || cmd.startsWith "block." || cmd.startsWith "table." || cmd.startsWith "lookup." then tableCmd toks
       else if cmd.startsWith "merge." || cmd.startsWith "dbiter." then iterCmd toks
+      else if cmd.startsWith "lsm." then lsmCmd toks
       else none
     match r with
     | some s => s
